@@ -118,6 +118,7 @@ type parser struct {
 	scanOffset int
 	ch         rune
 	set        []rune
+	escClass   bool // the last escape was a class (\p \d \w \s ...), even if it has a single member
 	err        ParseError
 }
 
@@ -444,7 +445,7 @@ func (p *parser) parseClass(opts CharsetOptions) charset {
 				continue
 			case '\\':
 				cs := p.parseEscape(opts, false /*standalone*/)
-				if !cs.oneRune() {
+				if p.escClass || !cs.oneRune() {
 					// Note: parseEscape uses p.set as a temporary buffer. Make a copy.
 					subs = append(subs, append(charset(nil), cs...))
 					continue
@@ -460,7 +461,7 @@ func (p *parser) parseClass(opts CharsetOptions) charset {
 			return nil
 		case '\\':
 			cs := p.parseEscape(opts, false /*standalone*/)
-			if !cs.oneRune() {
+			if p.escClass || !cs.oneRune() {
 				r = append(r, cs...)
 				continue
 			}
@@ -483,7 +484,7 @@ func (p *parser) parseClass(opts CharsetOptions) charset {
 		var hi rune
 		if p.ch == '\\' {
 			cs := p.parseEscape(opts, false /*standalone*/)
-			if !cs.oneRune() {
+			if p.escClass || !cs.oneRune() {
 				p.error("invalid character class range", loStart, p.offset)
 				return nil
 			}
@@ -527,6 +528,7 @@ func (p *parser) parseEscape(opts CharsetOptions, standalone bool) charset {
 	start := p.offset
 	p.next() // skip \
 	var r rune
+	p.escClass = strings.ContainsRune("pPdDwWsS", p.ch)
 	switch p.ch {
 	case '0', '1', '2', '3', '4', '5', '6', '7':
 		for i := 0; i < 3; i++ {
